@@ -234,12 +234,16 @@ class C08(core.Property):
     case_timeout_s = 20
     rule = ("family policy: ≤60 push/pop/peek/purge_expired/accessor operations on one real policy object (9 policies, optional balking wrapper, "
             "capacities 1–3 and unbounded, ties in priority/deadline, clock moving past deadlines, DeadlineQueue housekeeping rounds: bursts of "
-            "3–12 spread deadlines, clock jump, count_expired/count_valid, purge_expired, drain); family pipe: ≤12 requests "
+            "3–12 spread deadlines, clock jump, count_expired/count_valid, purge_expired, drain; in 40% of the deadline / priority / CoDel / adaptive / FIFO "
+            "cases every clock value and every time or rank key is shifted late into a long run — by 1e16, 2^53, 3e17, 1e18 or 2^63 ns (1e7–9e9 s), "
+            "deadlines and ranks still 1–3 units apart — where float seconds and, past 2^53, float nanoseconds collapse neighbours); family pipe: ≤12 requests "
             "arriving at a Server/ShiftedServer in bursts on one nanosecond through forwarder chains of 0–3 hops, service "
             "times on a 0.25 s grid, concurrency 1–3, queue capacity 0–3 or unbounded, FIFO/LIFO/priority queue; family pipew: the same "
             "pipeline with the Server built on every ConcurrencyModel — FixedConcurrency, DynamicConcurrency (min 1–2, max 3–6 or unbounded, 1–6 "
             "set_limit/scale_up/scale_down calls by a controller entity at instants before, between — on and off the 0.25 s grid, also beside "
-            "waiting work — and after the traffic, requested limits 0–9 so that both clamps bite), WeightedConcurrency (pool 1–41 units, per-request "
+            "waiting work — and after the traffic, requested limits 0–9 so that both clamps bite; in 35% of the dynamic cases an autoscaling sequence "
+            "under load: a burst of limit+1..limit+4 long requests saturates the server, the limit is lowered below the work in service and then "
+            "raised to / past / far past it before, while or after some of it completes), WeightedConcurrency (pool 1–41 units, per-request "
             "metadata.weight 1–7: one common weight dividing the pool, a pool as large as all weights together, or arbitrary mixes up to pool+1 on "
             "every queue policy, where a head dequeued on one free unit is rejected-and-counted by the worker) — ≤10 requests, judged in capacity "
             "units; switches HV_C08_WEIGHT_LIFT=0 (no mixes) / HV_C08_DYN_LIFT=0 (no raises beside waiting work, for trees before d187c1c) / "
@@ -323,7 +327,7 @@ class C08(core.Property):
         if kind == "deadline" and rng.random() < 0.5:
             if cfg.get("cap") is not None and rng.random() < 0.7:
                 cfg["cap"] = rng.choice([None, 6, 8, 12])
-            return self.fill_oracles({"family": "policy", "cfg": cfg, "ops": self.gen_deadline_rounds(rng)})
+            return self.fill_oracles({"family": "policy", "cfg": cfg, "ops": self.far_future(rng, kind, self.gen_deadline_rounds(rng))})
         n = rng.choice([4, 8, 16, 30, 40])
         ops, now, nid = [], 0, 0
         nflows = rng.choice([1, 2, 3, 4])
@@ -352,8 +356,30 @@ class C08(core.Property):
                 ops.append(["query", now, rng.randrange(nflows + 1)])
             else:
                 ops.append(["peek", now])
-        case = {"family": "policy", "cfg": cfg, "ops": ops}
+        case = {"family": "policy", "cfg": cfg, "ops": self.far_future(rng, kind, ops)}
         return self.fill_oracles(case)
+
+    @staticmethod
+    def far_future(rng, kind, ops):
+        """late in a long run: every clock value — and every key that is a time (deadlines) or a large integer rank
+        (priorities) — is shifted by 1e7 .. 1e9 s worth of nanoseconds (also 2^53 and 2^63 ns), where a float second
+        count, and beyond 2^53 even a float nanosecond count, can no longer tell neighbours a few ns apart"""
+        if kind not in ("deadline", "prio", "codel", "adaptive", "fifo") or rng.random() < 0.6:
+            return ops
+        off = rng.choice([10**16, 10**16 + 7, 2**53, 2**53 + 1, 3 * 10**17, 10**18, 2**63])
+        out = []
+        for op in ops:
+            op = list(op)
+            if op[0] == "push":
+                op[4] += off
+                if kind in ("deadline", "prio"):
+                    op[2] += off
+            elif op[0] == "query":
+                op[1] += off
+            else:
+                op[1] += off
+            out.append(op)
+        return out
 
     @staticmethod
     def gen_deadline_rounds(rng):
@@ -930,6 +956,27 @@ def pipew_generate(rng, i, tier):
                 t2 = 2 * (rng.choice(reqs)[0] + rng.choice([0, 1, 2, 4]))       # on the grid: beside arrivals / completions
             ctl.append([t2, op, arg])
         case["ctl"] = ctl
+        if DYN_LIFT and rng.random() < 0.35:
+            # autoscaling under load: a burst saturates the server and leaves a backlog, the limit is lowered below
+            # the work in service (it keeps running: active > limit), then raised — to / past / far past what is in
+            # service — before, while or after some of it completes
+            L = rng.choice([2, 3, 3, 4])
+            t0 = rng.choice(bases)
+            burst = L + rng.choice([1, 2, 4])
+            case["limit"], case["lo"] = L, min(L - 1, rng.choice([1, 1, 2]))
+            case["hi"] = rng.choice([None, None, L + 1, 9])
+            case["reqs"] = [[t0, rng.choice([0, 0, 1]), rng.choice([0, 1, 2]), 1] for _ in range(burst)] + reqs[:2]
+            long = rng.choice([4, 8])
+            case["svcs"] = [rng.choice([long, long, long // 2]) for _ in range(burst)] + case["svcs"][:2]
+            down = rng.randint(case["lo"], L - 1)
+            up = rng.choice([L - 1, L, L + 1, L + 2, 9])
+            t_dn = 2 * t0 + rng.choice([1, 2, 3])
+            t_up = t_dn + rng.choice([0, 1, 2, long, 2 * long - 1, 2 * long, 2 * long + 1])
+            seq = [[t_dn, rng.choice(["set", "set", "down"]), down if rng.random() < 0.8 else L - down],
+                   [t_up, "set", up]]
+            if rng.random() < 0.3:
+                seq.append([t_up + rng.choice([1, 2, long]), rng.choice(["up", "set"]), rng.choice([1, 2, 9])])
+            case["ctl"] = seq + (ctl[:1] if rng.random() < 0.3 else [])
     return pipew_norm(case)
 
 
